@@ -1,13 +1,44 @@
-"""C03 - generic merge cells with the 'frame' oracle (see h_merge.py)."""
+"""C03 - a merge changes only what the message names (no collateral edits)."""
+from .cells import Cell, distinct, str_pre
 from .h_merge import make_cells
+from .p_c04 import mcell, META_CARRIES
 
 PID = 'C03'
-ASSUMPTIONS = []
+ASSUMPTIONS = [
+    'unaddressed content (paragraph texts, metadata texts, attribute values) consists of solver '
+    'variables compared structurally before/after; the second story of item-level cells repeats the '
+    'item IDs of the addressed story',
+    'logging disabled; constant hash for symbolic str (stub S2)',
+]
 
 
 def bounds(tier):
-    return {'N': 3, 'sources_k': '<=2', 'carried': '<=2', 'id_length': 1, 'id_alphabet': 'U+0020..U+007E'}
+    return {'N': 3, 'sources_k': '<=2', 'carried': '<=2', 'id_length': 1, 'id_alphabet': 'U+0020..U+007E',
+            'reference_kinds': 'existing / unknown / blank / absent (where optional) / repeated / target=source'}
+
+
+def icell(pid, op, N=2, T=60, **extra):
+    P = {'N': N, 'op': op}
+    P.update(extra)
+    sym = [('s%d' % i, 'str') for i in range(N)] + [('c0', 'str')]
+    strs = ['s%d' % i for i in range(N)]
+    pre = str_pre(strs + ['c0']) + distinct(strs)
+    cid = '%s/%s/inert/N%d' % (pid, op, N)
+    for key, v in extra.items():
+        cid += '/%s%s' % (key, v)
+    return Cell(pid=pid, cid=cid, harness='h_payload:inert_cell', params=P, sym=sym, pre=pre,
+                stubs=('hash',), timeout=T, cost=1)
 
 
 def cells(tier):
-    return make_cells(PID, 'frame', tier)
+    T = 60 if tier == 'quick' else 600
+    out = make_cells(PID, 'frame', tier)
+    for carry in META_CARRIES:
+        out.append(mcell(PID, 'frame', carry, T=T))
+    out.append(mcell(PID, 'frame', ['metaB'], T=T, n_meta=1))
+    out.append(mcell(PID, 'frame', ['metaB', 'roEdStart'], T=T, meta_split=True))
+    out.append(mcell(PID, 'frame', ['metaX', 'fresh'], T=T, N=3, gap=1))
+    for N in (1, 3):
+        out.append(icell(PID, 'roReadyToAir', N=N, T=T))
+        out.append(icell(PID, 'roDelete', N=N, T=T))
+    return out
